@@ -52,6 +52,18 @@ from ofxtools.models.wrapperbases import TrnRq, TrnRs
 from ofxtools.models.common import MSGSETCORE
 
 
+def enforce_list_mutex(cls, args, kwargs, attr, listitem_cls):
+    """``attr`` (passed as kwarg) and list items of type ``listitem_cls``
+    (passed as positional args) are mutually exclusive."""
+    if kwargs.get(attr, None) is not None and any(
+        isinstance(arg, listitem_cls) for arg in args
+    ):
+        msg = "{}: must contain at most 1 of [{}, {}]"
+        raise ValueError(
+            msg.format(cls.__name__, attr.upper(), listitem_cls.__name__)
+        )
+
+
 class PAYERADDR(Aggregate):
     """OFX tax extensions section 2.2.7"""
 
@@ -232,13 +244,14 @@ class TAX1099MISC_V100(Aggregate):
     tinnot = Bool()
     fatca = Bool()
 
-    optionalMutexes = [["sttaxwh", "addlsttaxwhagg"]]
-
     @classmethod
     def validate_args(cls, *args, **kwargs):
         if "sttaxwh" in kwargs and "payerstate" not in kwargs:
             msg = "{}: payerstate must also be provided if sttaxwh is provided"
             raise ValueError(msg.format(cls.__name__))
+        # ADDLSTTAXWHAGG is a list item (passed as positional arg), so this
+        # exclusion can't be expressed via ``optionalMutexes`` (which only sees kwargs)
+        enforce_list_mutex(cls, args, kwargs, "sttaxwh", ADDLSTTAXWHAGG)
         super().validate_args(*args, **kwargs)
 
 
@@ -354,11 +367,17 @@ class TAX1099INT_V100(Aggregate):
     fatca = Bool()
 
     optionalMutexes = [
-        ["forcnt", "forincome"],
         ["statecode", "addlstatetaxwhagg"],
         ["stateidnum", "addlstatetaxwhagg"],
         ["statetaxwheld", "addlstatetaxwhagg"],
     ]
+
+    @classmethod
+    def validate_args(cls, *args, **kwargs):
+        # FORINCOME is a list item (passed as positional arg), so this
+        # exclusion can't be expressed via ``optionalMutexes`` (which only sees kwargs)
+        enforce_list_mutex(cls, args, kwargs, "forcnt", FORINCOME)
+        super().validate_args(*args, **kwargs)
 
 
 class TAX1099DIV_V100(Aggregate):
@@ -399,7 +418,14 @@ class TAX1099DIV_V100(Aggregate):
     tinnot = Bool()
     fatca = Bool()
 
-    optionalMutexes = [["forcnt", "forincome"], ["statetaxwheld", "addlstatetaxwhagg"]]
+    optionalMutexes = [["statetaxwheld", "addlstatetaxwhagg"]]
+
+    @classmethod
+    def validate_args(cls, *args, **kwargs):
+        # FORINCOME is a list item (passed as positional arg), so this
+        # exclusion can't be expressed via ``optionalMutexes`` (which only sees kwargs)
+        enforce_list_mutex(cls, args, kwargs, "forcnt", FORINCOME)
+        super().validate_args(*args, **kwargs)
 
 
 class TAX1099OID_V100(Aggregate):
